@@ -25,7 +25,7 @@ import math
 EPS = 2.220446049250313e-16
 
 
-def derivative(f, h0, levels=3, max_levels=6, rel_target=1e-9, abs_target=1e-9, f_eps=8.0, probes=5, probe_rel=1e-3, ratio=1.7):
+def derivative(f, h0, levels=3, max_levels=6, rel_target=1e-9, abs_target=1e-9, f_eps=8.0, probes=6, probe_rel=1e-3, ratio=1.7):
     """Ridders' extrapolation of the central difference quotient of t -> f(t) at t = 0.
 
     levels      rows always computed
@@ -69,12 +69,13 @@ def derivative(f, h0, levels=3, max_levels=6, rel_target=1e-9, abs_target=1e-9, 
             break
         fmax = max(fmax, abs(fp), abs(fm))
         if i == 0 and probes >= 4:
+            offs = PROBE_OFFSETS[: probes + 1] if probes + 1 <= len(PROBE_OFFSETS) else PROBE_OFFSETS
             pv = [fp]
-            for k in range(1, probes + 1):
+            for k in offs[1:]:
                 pv.append(float(f(h * (1.0 + k * probe_rel))))
                 evals += 1
             if all(math.isfinite(v) for v in pv):
-                sigma = noise_amplitude(pv)
+                sigma = noise_amplitude_irregular([h * (1.0 + k * probe_rel) for k in offs], pv)
             else:
                 finite = False
                 break
@@ -106,6 +107,25 @@ def derivative(f, h0, levels=3, max_levels=6, rel_target=1e-9, abs_target=1e-9, 
         return float("nan"), float("inf"), {"rows": i, "h": h, "fmax": fmax, "noise": float("inf"), "sigma": sigma, "evals": evals, "finite": False}
     noise = (3.0 * sigma + f_eps * EPS * max(fmax, 1e-300)) / best_h
     return best, best_err, {"rows": i, "h": best_h, "fmax": fmax, "noise": noise, "sigma": sigma, "evals": evals, "finite": True}
+
+
+PROBE_OFFSETS = (0.0, 1.0, 2.13, 2.91, 4.27, 5.0, 6.41, 7.19)
+
+
+def noise_amplitude_irregular(ts, values):
+    """amplitude of the rounding noise in evaluations at the unequally spaced abscissae ts of a smooth function: 1.5 x the largest
+    residual of a least-squares cubic (8 points, 4 coefficients).  Unequal spacing on purpose: the rounding error of 1 + x and of
+    exp(x) for tiny x is a sawtooth in x, and equally spaced samples of a sawtooth are again (nearly) linear - aliasing - so that
+    fourth differences of equally spaced probes reported 1e-15 for a value with 1e-7 of such noise."""
+    import numpy as np
+
+    t = np.asarray(ts, dtype=float)
+    v = np.asarray(values, dtype=float)
+    if t.size < 6 or not np.all(np.isfinite(v)):
+        return 0.0
+    u = (t - t.mean()) / (np.ptp(t) or 1.0)
+    co = np.polyfit(u, v - v.mean(), 3)
+    return 1.5 * float(np.max(np.abs(v - v.mean() - np.polyval(co, u))))
 
 
 def noise_amplitude(values):
